@@ -211,3 +211,13 @@ End Widths.
 
 Definition spec_accepts_w (pw : pid -> Z) (prog : list ctree) : bool :=
   forest_w1 pw prog && spec_accepts prog.
+
+(* ---------- the value an integer right-hand side denotes at the target's width ----------
+   `t |= v` with a Python int v builds a constant OF THE TARGET'S WIDTH w: a non-negative v must fit in
+   w bits, a negative v is taken in two's complement and must fit in w bits as a signed number;
+   anything else is an error.  (Wires are taken modulo 2^w: zero-extended or truncated.) *)
+Definition coerce_int (w v : Z) : option Z :=
+  if 0 <=? v then (if v <? 2 ^ w then Some v else None)
+  else (if - 2 ^ (w - 1) <=? v then Some (v + 2 ^ w) else None).
+
+Definition coerce_wire (w v : Z) : Z := v mod 2 ^ w.
